@@ -278,6 +278,39 @@ func (cs *clientState) isMultiInProgress() bool {
 	return cs.multiInProgress
 }
 
+// The fields of a connection that other connections read (CLIENT LIST, CLIENT
+// INFO) - name, selected database, protocol version, watched keys - are
+// written by their own connection under cs.mu and read by others under cs.mu.
+
+func (cs *clientState) setName(name string) {
+	cs.mu.Lock()
+	defer cs.mu.Unlock()
+	cs.name = name
+}
+
+func (cs *clientState) setRespVersion(version int) {
+	cs.mu.Lock()
+	defer cs.mu.Unlock()
+	cs.respVersion = version
+}
+
+// forgets every watched key
+func (cs *clientState) clearWatches() {
+	cs.mu.Lock()
+	defer cs.mu.Unlock()
+	cs.watches = map[watchKey]uint64{}
+}
+
+// records the version of a key the first time it is watched; a key that is
+// watched already keeps the version seen first
+func (cs *clientState) watchOnce(wk watchKey, id uint64) {
+	cs.mu.Lock()
+	defer cs.mu.Unlock()
+	if _, watched := cs.watches[wk]; !watched {
+		cs.watches[wk] = id
+	}
+}
+
 func (cs *clientState) selectDb(index int, create bool) (priorSelection int, valid bool) {
 	cs.mu.Lock()
 	defer cs.mu.Unlock()
